@@ -15,11 +15,11 @@ def design_model(ctx):
     r = vlib.tlc(ctx, "Calls", cfg, workers=4, name="Calls/" + cfg)
     ctx.states += r["distinct"]
     ctx.transitions += r["generated"]
-    for c in ("Calls_control.cfg", "Calls_control2.cfg", "Calls_control3.cfg"):
+    for c in ("Calls_control.cfg", "Calls_control2.cfg", "Calls_control3.cfg", "Calls_control4.cfg"):
         rc = vlib.tlc(ctx, "Calls", c, workers=1, name="Calls/" + c, allow_violation=True)
         if rc["rc"] == 0 or not any("is violated" in l for l in rc["tail"]):
             raise vlib.Infra("vacuity control %s was accepted by TLC: the Calls model does not see in-place writes" % c)
-    ctx.coverage_extra["design_model"] = dict(cfg=cfg, states=r["distinct"], controls_rejected=3)
+    ctx.coverage_extra["design_model"] = dict(cfg=cfg, states=r["distinct"], controls_rejected=4)
 
 
 RACE_HDR = re.compile(r"^WARNING: DATA RACE")
